@@ -29,11 +29,17 @@ fn key_str(vals: &[Val], cols: &[usize]) -> String {
 }
 
 impl St {
+    /// The key of `row` is the key of a row that somebody (who has not aborted) has deleted: inserting it
+    /// again overwrites the single index entry of that key (finding U2). A key held by a live row is an
+    /// ordinary duplicate, a key held by an open transaction's insert a write-write conflict, a key left
+    /// by an aborted insert is free.
     fn key_used_before(&self, ti: usize, row: &[Val]) -> bool {
         let t = &self.model.tables[ti];
         t.uniques.iter().any(|u| {
             let k = key_str(row, &u.cols);
-            self.poisoned.contains(&(t.name.clone(), format!("{}:{k}", u.name))) || t.rows.iter().any(|r| r.versions.iter().any(|v| key_str(&v.vals, &u.cols) == k))
+            t.rows.iter().any(|r| {
+                r.deleters.iter().any(|d| self.model.txs[*d].status != crate::model::TxStatus::Aborted) && r.versions.iter().any(|v| key_str(&v.vals, &u.cols) == k)
+            })
         })
     }
     fn key_of_rolled_back_insert(&self, ti: usize, row: &[Val]) -> bool {
